@@ -149,7 +149,12 @@ def read_log(path):
     try:
         with open(path) as f:
             for line in f:
-                out.append(json.loads(line))
+                try:
+                    out.append(json.loads(line))
+                except ValueError:
+                    if line.endswith("\n"):
+                        raise
+                    # (a process that was stopped while it wrote its last record: the record is not information)
     except FileNotFoundError:
         pass
     return out
